@@ -1,8 +1,230 @@
+import RichModel.Model.AnsiRender
 import RichModel.Drv.Proto
-/- Driver handlers for property C03 (stub: filled in when the model is built). -/
-namespace RichModel.Drv.C03
-open RichModel RichModel.Proto
+/-
+Driver handlers for property C03 (the ANSI stream means what the styled segments say).
 
-def handlers : List (String × (List String → String)) := []
+Every request is a *history* over shared `Style` objects (the `_ansi` cache is state):
+
+  <fn> TAB flags TAB ops
+
+* flags  : three characters 0/1: `ansiCacheUnkeyed styledControlKept stdViaPalette`
+* string : space separated decimal code points ("" = empty);  optstr: `-` | `=`string
+* color  : `-` | `name/type/number/triplet`  (number `-`|n, triplet `-`|r.g.b) — C06's format
+* style  : `color|bgcolor|attributes|set_attributes|link|null`
+* ops    : joined by `~`
+    N@style                 a new Style object with an empty cache
+    C@i                     heap[i].copy()
+    U@i@optstr              heap[i].update_link(link)
+    R@cfg@n#seg;seg…        console._render_buffer(segs);  cfg = four characters `cs no_color is_terminal legacy_windows`,
+                            cs: 0 None 1 standard 2 256 3 truecolor 4 windows;  seg = `text,style,control`, style `-`|index
+    S@i@cs@lw@text          heap[i].render(text, color_system=cs, legacy_windows=lw)
+* answers: one item per writing op, joined by `~`; an exception ends the history with `err:<PyClass>`.
+    c03_chars     the characters written, link ids masked as `id=*`
+    c03_toks      the tokens (normalised): `T`string | `G`p.p.p | `L`params`/`uri, joined by `;`
+    c03_cells     the independent interpreter run on those tokens: runs `string|mask|fg|bg|link` joined by `;`,
+                  plus `!` and the final terminal state `mask|fg|bg|link`
+    c03_expected  what the specification `expectedCells` says the terminal must show, same run format
+  A dangling index makes the whole request `unmodelled`.
+* c03_interp TAB tokens   the interpreter alone on an arbitrary token list (same token / run formats)
+-/
+namespace RichModel.Drv.C03
+open RichModel RichModel.Proto RichModel.AnsiTerm RichModel.AnsiRender
+
+def decOptS (s : String) : Option (Option (List Char)) :=
+  if s == "-" then some none
+  else if s.startsWith "=" then some (some (decStr (s.drop 1).toString))
+  else none
+
+def decType : String → Option ColorType
+  | "0" => some .default | "1" => some .standard | "2" => some .eightBit
+  | "3" => some .truecolor | "4" => some .windows | _ => none
+
+def decColor (s : String) : Option (Option Color) :=
+  if s == "-" then some none
+  else match s.splitOn "/" with
+  | [n, t, num, trip] => do
+    let ty ← decType t
+    let number ← if num == "-" then some none else num.toNat?.map some
+    let triplet ← if trip == "-" then some none else
+      match trip.splitOn "." with
+      | [r, g, b] => do
+        let r ← r.toNat?
+        let g ← g.toNat?
+        let b ← b.toNat?
+        pure (some (⟨r, g, b⟩ : Triplet))
+      | _ => none
+    pure (some { name := decStr n, type := ty, number := number, triplet := triplet })
+  | _ => none
+
+def decStyle (s : String) : Option Style :=
+  match s.splitOn "|" with
+  | [c, b, a, sa, l, n] => do
+    let c ← decColor c
+    let b ← decColor b
+    let a ← a.toNat?
+    let sa ← sa.toNat?
+    let l ← decOptS l
+    pure { color := c, bgcolor := b, attributes := a, setAttributes := sa, link := l,
+           hash := ⟨c, b, some a, some sa, l⟩, isNull := decBool n, styleDef := none }
+  | _ => none
+
+def decSystem : String → Option (Option ColorSystem)
+  | "0" => some none | "1" => some (some .standard) | "2" => some (some .eightBit)
+  | "3" => some (some .truecolor) | "4" => some (some .windows) | _ => none
+
+def decConfig (s : String) : Option Config :=
+  match s.toList with
+  | [cs, nc, t, lw] => do
+    let cs ← decSystem cs.toString
+    pure { colorSystem := cs, noColor := nc == '1', isTerminal := t == '1', legacyWindows := lw == '1' }
+  | _ => none
+
+def decSeg (s : String) : Option Seg :=
+  match s.splitOn "," with
+  | [t, st, c] => do
+    let st ← if st == "-" then some none else st.toNat?.map some
+    pure { text := decStr t, style := st, control := decBool c }
+  | _ => none
+
+def decSegs (s : String) : Option (List Seg) :=
+  match s.splitOn "#" with
+  | [n, body] => if n == "0" then some [] else (body.splitOn ";").mapM decSeg
+  | _ => none
+
+def decOp (s : String) : Option Op :=
+  match s.splitOn "@" with
+  | ["N", st] => (decStyle st).map .newStyle
+  | ["C", i] => i.toNat?.map .copy
+  | ["U", i, l] => do
+    let i ← i.toNat?
+    let l ← decOptS l
+    pure (.updateLink i l)
+  | ["R", cfg, segs] => do
+    let cfg ← decConfig cfg
+    let segs ← decSegs segs
+    pure (.render cfg segs)
+  | ["S", i, cs, lw, t] => do
+    let i ← i.toNat?
+    let cs ← decSystem cs
+    pure (.styleRender i (decStr t) cs (decBool lw))
+  | _ => none
+
+def decOps (s : String) : Option (List Op) :=
+  if s.isEmpty then some [] else (s.splitOn "~").mapM decOp
+
+structure Flags where
+  v : RVariant
+  cc : Cfg
+
+def decFlags (s : String) : Option Flags :=
+  match s.toList.map (· == '1') with
+  | [a, b, c] => some ⟨⟨a, b⟩, { stdViaPalette := c, satExc := satExcDouble }⟩
+  | _ => none
+
+/-! ### encoders -/
+
+def encErr : RenderErr → String
+  | .py .assertionError => "err:AssertionError"
+  | .py .indexError => "err:IndexError"
+  | .py .valueError => "err:ValueError"
+  | .badRef => "unmodelled"
+
+def encTok : Tok → String
+  | .text s => "T" ++ encStr s
+  | .sgr ps => "G" ++ ".".intercalate (ps.map toString)
+  | .osc8 p u => "L" ++ encStr p ++ "/" ++ encStr u
+
+def encToks (ts : List Tok) : String := ";".intercalate ((normalise ts).map encTok)
+
+def decTok (s : String) : Option Tok :=
+  if s.startsWith "T" then some (.text (decStr (s.drop 1).toString))
+  else if s.startsWith "G" then
+    let body := (s.drop 1).toString
+    if body.isEmpty then some (.sgr []) else ((body.splitOn ".").mapM String.toNat?).map .sgr
+  else if s.startsWith "L" then
+    match ((s.drop 1).toString).splitOn "/" with
+    | [p, u] => some (.osc8 (decStr p) (decStr u))
+    | _ => none
+  else none
+
+def decToks (s : String) : Option (List Tok) :=
+  if s.isEmpty then some [] else (s.splitOn ";").mapM decTok
+
+def encTermColor : TermColor → String
+  | .default => "d"
+  | .indexed n => "i" ++ toString n
+  | .rgb r g b => "r" ++ toString r ++ "_" ++ toString g ++ "_" ++ toString b
+
+def b2n (b : Bool) (k : Nat) : Nat := if b then 2 ^ k else 0
+
+def rendMask (r : Rendition) : Nat :=
+  b2n r.bold 0 + b2n r.dim 1 + b2n r.italic 2 + b2n r.underline 3 + b2n r.blink 4 + b2n r.blink2 5 +
+  b2n r.reverse 6 + b2n r.conceal 7 + b2n r.strike 8 + b2n r.underline2 9 + b2n r.frame 10 +
+  b2n r.encircle 11 + b2n r.overline 12
+
+def encLook (r : Rendition) (l : Option (List Char)) : String :=
+  toString (rendMask r) ++ "|" ++ encTermColor r.fg ++ "|" ++ encTermColor r.bg ++ "|" ++
+    (match l with | none => "-" | some u => "=" ++ encStr u)
+
+/-- Group consecutive cells with the same look. -/
+def runs : List Cell → List (List Char × Rendition × Option (List Char))
+  | [] => []
+  | c :: rest =>
+    match runs rest with
+    | (s, r, l) :: more =>
+      if r = c.rend ∧ l = c.link then (c.char :: s, r, l) :: more
+      else ([c.char], c.rend, c.link) :: (s, r, l) :: more
+    | [] => [([c.char], c.rend, c.link)]
+
+def encCells (cs : List Cell) : String :=
+  ";".intercalate ((runs cs).map fun (s, r, l) => encStr s ++ "|" ++ encLook r l)
+
+def encInterp (ts : List Tok) : String :=
+  let r := interpFrom {} ts
+  encCells r.2 ++ "!" ++ encLook r.1.rend r.1.link
+
+/-! ### the history runner with a per-op view -/
+
+/-- Like `runOps`, but hands every writing op its tokens together with the heap *before* the op
+(needed by `expectedCells`) and the op itself. -/
+def runView (f : Flags) : Heap → List Op → List (Except RenderErr (Heap × Op × List Tok))
+  | _, [] => []
+  | heap, op :: rest =>
+    match stepOp f.v f.cc richPalettes heap op with
+    | .error e => [.error e]
+    | .ok (heap', none) => runView f heap' rest
+    | .ok (heap', some toks) => .ok (heap, op, toks) :: runView f heap' rest
+
+def expectedOf (f : Flags) (heap : Heap) : Op → List Cell
+  | .render cfg segs => expectedCells f.cc richPalettes cfg heap segs
+  | .styleRender i text cs lw =>
+    let e := expected f.cc richPalettes ⟨cs, false, true, lw⟩ ((heap[i]?).map (·.style))
+    text.map fun c => ⟨c, e.1, e.2⟩
+  | _ => []
+
+def history (view : Flags → Heap → Op → List Tok → String) : List String → String
+  | [flags, ops] =>
+    match decFlags flags, decOps ops with
+    | some f, some ops =>
+      let rs := runView f [] ops
+      if rs.any (fun r => match r with | .error .badRef => true | _ => false) then "unmodelled"
+      else "~".intercalate (rs.map fun r =>
+        match r with
+        | .ok (heap, op, toks) => view f heap op toks
+        | .error e => encErr e)
+    | _, _ => "unmodelled"
+  | _ => "bad-args"
+
+def handlers : List (String × (List String → String)) := [
+  ("c03_chars", history fun _ _ _ toks => "ok " ++ encStr (serialise toks)),
+  ("c03_toks", history fun _ _ _ toks => "ok " ++ encToks toks),
+  ("c03_cells", history fun _ _ _ toks => "ok " ++ encInterp toks),
+  ("c03_expected", history fun f heap op _ => "ok " ++ encCells (expectedOf f heap op)),
+  ("c03_interp", fun a => match a with
+    | [ts] => match decToks ts with
+      | some ts => encInterp ts
+      | none => "unmodelled"
+    | _ => "bad-args")
+]
 
 end RichModel.Drv.C03
